@@ -209,6 +209,30 @@ mod proofs {
         assert!(memterm::charset::IBMPC_MAP[k] as u32 == crate::ref_tables::REF_CP437[k]);
     }
 
+    /// the string tables and control constants the recogniser depends on (assumed on the Verus side: axiom_control_tables)
+    #[kani::proof]
+    #[kani::unwind(12)]
+    fn control_tables() {
+        use memterm::control::*;
+        assert!(BASIC.len() == 9 && ALLOWED_IN_CSI.len() == 7 && OSC_TERMINATORS.len() == 3);
+        let basic: [u8; 9] = [7, 8, 9, 10, 11, 12, 13, 14, 15]; // BEL BS HT LF VT FF CR SO SI
+        let mut i = 0;
+        while i < 9 {
+            assert!(BASIC[i].len() == 1 && BASIC[i].as_bytes()[0] == basic[i]);
+            if i < 7 {
+                assert!(ALLOWED_IN_CSI[i].len() == 1 && ALLOWED_IN_CSI[i].as_bytes()[0] == basic[i]);
+            }
+            i += 1;
+        }
+        // BEL, ESC \, U+009C (UTF-8: C2 9C)
+        assert!(OSC_TERMINATORS[0].as_bytes() == [7u8]);
+        assert!(OSC_TERMINATORS[1].as_bytes() == [0x1bu8, 0x5c]);
+        assert!(OSC_TERMINATORS[2].as_bytes() == [0xc2u8, 0x9c]);
+        assert!(ESC.as_bytes() == [0x1bu8] && CSI.as_bytes() == [0xc2u8, 0x9b] && OSC.as_bytes() == [0xc2u8, 0x9d]);
+        assert!(DECALN.as_bytes() == [b'8'] && SI.as_bytes() == [15u8] && SO.as_bytes() == [14u8] && SP.as_bytes() == [b' '] && GREATER.as_bytes() == [b'>']);
+        assert!(CAN.as_bytes() == [0x18u8] && SUB.as_bytes() == [0x1au8]);
+    }
+
     #[kani::proof]
     fn mode_constants() {
         assert!(memterm::modes::LNM == 20);
